@@ -33,6 +33,9 @@ void vrt_unname(const volatile void *addr);
 void vrt_name_val(const void *p, const char *fmt, ...) __attribute__((format(printf, 2, 3)));
 void vrt_unname_val(const void *p);
 void vrt_name_mutex(const void *m, const char *name);
+/* called (from the event logger) when an unnamed pointer value is stored into a named pointer variable */
+void vrt_set_unknown_ptr_hook(void (*fn)(const char *var, unsigned long v));
+#define VK_GPCTR 3	/* urcu gp/reader counter: logged as (phase ? 65536 : 0) + nesting count */
 
 /* threads */
 void vrt_spawn(const char *name, void *(*fn)(void *), void *arg);
